@@ -24,7 +24,9 @@ def build(ctx, h, variant):
     cases = [dict(cipher=c, mac=m, zip=z, ttl=300, auth_uid=au, auth_gid=cc.ANY, data=K.payload(r, n), realm=rl,
                   uid=600 + i, gid=700 + i, now=1000000, rnd=bytes(r.randrange(256) for _ in range(24)))
              for i, (c, m, z, n, au, rl) in enumerate([(4, 5, 0, 40, cc.ANY, b""), (2, 3, 0, 17, cc.ANY, b""), (3, 5, 3, 300, cc.ANY, b"realm\0"),
-                                                      (5, 6, 0, 5, cc.ANY, b""), (0, 5, 0, 9, cc.ANY, b""), (4, 5, 0, 12, 4242, b"")])]
+                                                      (5, 6, 0, 5, cc.ANY, b""), (0, 5, 0, 9, cc.ANY, b""), (4, 5, 0, 12, 4242, b""),
+                                                      # inner layer (41 + n bytes) an exact multiple of the block size: the last cipher block is pure padding
+                                                      (4, 5, 0, 23, cc.ANY, b""), (2, 3, 0, 7, cc.ANY, b""), (5, 6, 0, 39, cc.ANY, b"")])]
     pre = ["cred conf mackey=%s dekkey=%s" % (K.MK.hex(), K.DK.hex())]
     _, res = K.encode_all(h, cases, pre=pre)
     ops, kinds = list(pre), ["skip"]
@@ -65,6 +67,9 @@ def build(ctx, h, variant):
             m0 = 5 + len(e["realm"].rstrip(b"\0")) + blk
             dec(raw[:m0] + bytes([raw[m0] ^ 1]) + raw[m0 + 1:], ("tail", key, retry))
             dec(raw[:-blk], ("tail", key, retry))        # whole last block removed
+            for k in sorted({1, 2, blk // 2, blk - 1}):   # a ciphertext that is not a whole number of blocks (shorter / longer)
+                dec(raw[:-k], ("tail", key, retry))
+                dec(raw + bytes([k]) * k, ("tail", key, retry))
             dec(raw + bytes(blk), ("tail", key, retry))  # a block appended
     return ops, kinds
 
@@ -106,9 +111,9 @@ def make_oracle(kinds):
 
 
 def run(ctx):
-    ctx.rule = ("for 6 credentials (AES128, Blowfish, CAST5+zlib+realm, AES256, none, restricted): control decodes (ok / expired / rewound or unauthorised at 3 clocks) and hard failures "
+    ctx.rule = ("for 9 credentials (AES128, Blowfish, CAST5+zlib+realm, AES256, none, restricted, and three whose last cipher block is pure padding): control decodes (ok / expired / rewound or unauthorised at 3 clocks) and hard failures "
                 "(truncation, bad zip/cipher type, bad version, identity query failure, retry overflow) each with the full reply bytes compared to the error-only form; every byte of the last "
-                "cipher block flipped at bits 0 and 7, flips in the previous block and in the MAC, a removed and an appended block: all replies of one credential must be identical bytes. "
+                "cipher block flipped at bits 0 and 7, flips in the previous block and in the MAC, a removed and an appended block, partial blocks removed and appended: all replies of one credential must be identical bytes. "
                 "distinct = distinct op lines")
     ctx.assumptions += ["timing indistinguishability of padding vs MAC failure is not a property of the model and is not claimed",
                         "whether a given tail flip trips padding removal or only the MAC depends on the cipher; both happen in the stream (counted in evidence for the toy build via the model)"]
@@ -122,15 +127,16 @@ def run(ctx):
     drv = leanlib.driver(ctx)
     htoy = cc.build_toy(ctx)
     hreal = cc.build_real(ctx)
-    if not drv or not htoy or not hreal:
+    if drv and htoy:
+        ops, kinds = build(ctx, htoy, "toy")
+        for o in ops:
+            ctx.distinct(o)
+        for k in kinds:
+            ctx.dist("toy_" + (k if isinstance(k, str) else "tail"))
+        ctx.sample({"stream": "replies-toy", "op": ops[4][:170]})
+        judge.run_and_judge(ctx, "replies-toy", ops, [htoy], [drv], oracle=make_oracle(kinds), what="failure reply")
+    if not hreal:                   # (already a failed obligation)
         return
-    ops, kinds = build(ctx, htoy, "toy")
-    for o in ops:
-        ctx.distinct(o)
-    for k in kinds:
-        ctx.dist("toy_" + (k if isinstance(k, str) else "tail"))
-    ctx.sample({"stream": "replies-toy", "op": ops[4][:170]})
-    judge.run_and_judge(ctx, "replies-toy", ops, [htoy], [drv], oracle=make_oracle(kinds), what="failure reply")
     ops, kinds = build(ctx, hreal, "real")
     for o in ops:
         ctx.distinct(o)
